@@ -23,6 +23,7 @@ def check(chk, thorough=False):
     chk.run('C17.b', 'R-SCHEMA', 'every bound message type has a dispatch arm, unknown types are rejected, base handlers reject outside a session and overrides call them first', lambda ob: c17b(tree, ob), floor=12)
     chk.run('C17.c', 'R-SCHEMA', 'every keyword used to build a message and every field read from a dispatched message is a field of that message class', lambda ob: c17c(tree, ob), floor=15)
     chk.run('C17.d', 'R-ORDER', 'no delivery from mismatched transfers (= C01.d) and each START begins with fresh receive state', lambda ob: (c01d(tree, ob), c17d(tree, ob)), floor=9)
+    chk.run('C17.f', 'R-GUARD', 'a message of unknown type is not classified as partial: it reaches the dispatcher, whose default arm rejects it', lambda ob: c17f(tree, ob), floor=2)
     chk.run('C17.e2', 'R-PAIR', 'transfers that are finished or abandoned leave the TX map (with the right key), so later peer messages about them are rejected as unknown (= C18.c)', lambda ob: _c18c(tree, ob), floor=8)
     chk.run('C17.e', 'R-FLOW', 'peer-driven handlers change TX state only for the transfer they looked up by the peer id', lambda ob: c17e(tree, ob), floor=3)
 
@@ -240,8 +241,71 @@ def c17a(tree, ob):
                 if (fq, construct) in seen_keys:
                     continue
                 seen_keys.add((fq, construct))
+                if desc.startswith('re-raise of Exception caught around pkt = msgcls('):
+                    # decode errors other than "partial": the one demonstrated source is a short read of the fixed part of
+                    # a probe class (struct.error).  When every probe class reports a short or payload-less header as
+                    # partial (the C07.b conditions) the re-raise has no known feeder: recorded, not reported.
+                    from ..report import Obligation
+                    from .c07 import c07b
+                    dummy = Obligation('C07.b', 'R-SCHEMA', '')
+                    c07b(tree, dummy)
+                    if not dummy.findings:
+                        ob.undetermined.append('{}: {} - no feeder known: every probe class reports short input as partial (C07.b); payload decode errors are turned into Raw by scapy'.format(fq, construct))
+                        ob.site(SESS, node, 'decode re-raise: probe classes report short input as partial (C07.b)')
+                        continue
                 ob.violate(SESS, fq, construct, '{} can propagate out of the event-loop callback {} (the endpoint stops processing instead of answering with MSG_REJECT / SESS_TERM / close)'.format(base, qual),
                            node, [' -> '.join(chain)])
+
+
+# ---------------------------------------------------------------- C17.f
+def c17f(tree, ob):
+    ''' scapy gives a Raw payload both to a known message that failed to decode (truncated: wait) and to a message type
+    with no bound class (unknown: must be rejected now, it can never become decodable).  The completeness check may say
+    "partial" only for the former. '''
+    fv = FuncView(tree, MSGS, 'MessageHead.post_dissection')
+    raises = [r for r in walk_local(fv.func) if isinstance(r, ast.Raise) and r.exc is not None and 'VerifyError' in src(r.exc)]
+    ob.require(raises, 'no completeness check in MessageHead.post_dissection')
+
+    def is_guess(expr, at):
+        return pm('self.guess_payload_class($_)', fv.value_at(expr, at)) is not None
+
+    def is_default(expr, at):
+        val = fv.value_at(expr, at)
+        return pm('self.default_payload_class($_)', val) is not None or src(val) in ('packet.Raw', 'conf.raw_layer', 'Raw')
+
+    for r in raises:
+        known = False
+        other = False
+        for (text, pol) in fv.facts(r) or ():
+            try:
+                node = ast.parse(text, mode='eval').body
+            except SyntaxError:
+                continue
+            if isinstance(node, ast.Compare) and len(node.ops) == 1 and isinstance(node.ops[0], (ast.Is, ast.Eq, ast.IsNot, ast.NotEq)):
+                (a, b) = (node.left, node.comparators[0])
+                same = isinstance(node.ops[0], (ast.Is, ast.Eq))
+                if (is_guess(a, r) and is_default(b, r)) or (is_guess(b, r) and is_default(a, r)):
+                    if pol is (not same):
+                        known = True
+                    continue
+            if 'msg_id' in text or 'guess_payload_class' in text or 'payload_guess' in text:
+                other = True
+            elif any(isinstance(n, ast.Name) and is_guess(n, r) for n in ast.walk(node)) and not text.endswith('.fields_desc'):
+                other = True
+        if known:
+            ob.site(MSGS, r, 'partial only for a known message type: ' + src(r.exc)[:50])
+        elif other:
+            raise AnalysisError('C17.f: unrecognised guard on the message type at the completeness check ({})'.format(sorted(t for (t, p) in fv.facts(r))[:3]))
+        else:
+            ob.violate(MSGS, fv.qual, src(r.exc)[:70], 'a message of unknown type is reported as partial: it is never passed to the dispatcher, no MSG_REJECT is sent and every later '
+                       'message is stuck behind its octets', r)
+    # and the dispatcher classifies by the bound class, so that an unknown type falls into its default arm
+    fd = FuncView(tree, SESS, 'Messenger.recv_message')
+    defs = norm.local_assigns(fd.func, 'msgcls')
+    if len(defs) != 1 or (pm('pkt.guess_payload_class($_)', defs[0][1]) is None and pm('type(pkt.payload)', defs[0][1]) is None):
+        ob.violate(SESS, fd.qual, 'msgcls = ...', 'the dispatcher does not classify a message by the class bound to its type', fd.func)
+    else:
+        ob.site(SESS, defs[0][0], 'dispatch on ' + src(defs[0][1]))
 
 
 # ---------------------------------------------------------------- C17.b
